@@ -1,4 +1,4 @@
-import Taskpool.Inv.QueueInv
+import Taskpool.Inv.QueueProd
 /-! C20, part 2: the asyncio shell only ever performs guarded core operations (`KStep`), hence every state
 reachable by any history satisfies the core invariant. -/
 namespace Taskpool.QueueM
@@ -8,6 +8,26 @@ namespace Q
 @[simp] theorem k_modA (q : Q) (c : Nat) (f : Aux → Aux) : (q.modA c f).k = q.k := rfl
 @[simp] theorem k_logEv (q : Q) (e : Ev) : (q.logEv e).k = q.k := rfl
 @[simp] theorem k_schedC (q : Q) (c : Nat) : (q.schedC c).k = q.k := rfl
+
+@[simp] theorem k_modP (q : Q) (j : Nat) (f : Aux → Aux) : (q.modP j f).k = q.k := rfl
+@[simp] theorem k_schedP (q : Q) (j : Nat) : (q.schedP j).k = q.k := rfl
+
+@[simp] theorem k_wakePutter (q : Q) : q.wakePutter.k = q.k := by
+  unfold wakePutter
+  simp only
+  split <;> rfl
+
+theorem aux_wakePutter (q : Q) : q.wakePutter.aux = q.aux := by
+  unfold wakePutter
+  simp only
+  split <;> rfl
+
+theorem getters_wakePutter (q : Q) : q.wakePutter.getters = q.getters := by
+  unfold wakePutter
+  simp only
+  split <;> rfl
+
+@[simp] theorem k_waitPutter (q : Q) (j : Nat) : (q.waitPutter j).k = q.k := rfl
 
 @[simp] theorem k_wakeGetter (q : Q) : q.wakeGetter.k = q.k := by
   unfold wakeGetter
@@ -27,7 +47,8 @@ namespace Q
   · rfl
   · split <;> rfl
 
-@[simp] theorem k_put (q : Q) (x : Nat) : (q.put x).k = q.k.put x := by simp [put]
+theorem k_put (q : Q) (x : Nat) : (q.put x).k = if q.k.full then q.k else q.k.put x := by
+  unfold put; split <;> simp
 
 theorem k_tryGet (q : Q) (c : Nat) : (q.tryGet c).k = q.k.wait c ∨ (q.tryGet c).k = q.k.take c := by
   unfold tryGet
@@ -103,15 +124,72 @@ theorem kstep_stepConsumer (q : Q) (c : Nat) : KStep q.k (q.stepConsumer c).k :=
       · exact KStep.refl _
   · exact KStep.refl _
 
+theorem k_tryPut (q : Q) (j x : Nat) : (q.tryPut j x).k = if q.k.full then q.k.pwait j else q.k.pput j := by
+  unfold tryPut
+  split <;> simp
+
+@[simp] theorem k_abortPut (q : Q) (j : Nat) (w : Bool) : (q.abortPut j w).k = q.k.pabort j := by
+  unfold abortPut
+  simp only
+  split <;> simp
+
+@[simp] theorem k_cancelProducer (q : Q) (j : Nat) : (q.cancelProducer j).k = q.k := by
+  unfold cancelProducer
+  split
+  · split
+    · rfl
+    · split <;> rfl
+  · rfl
+
+@[simp] theorem k_produce (q : Q) (x : Nat) : (q.produce x).k = q.k.produce x := rfl
+
+theorem kstep_tryPut (q : Q) (j x : Nat) (p : Prod) (h : q.k.prods[j]? = some p) (hp : prePut p.phase = true) :
+    KStep q.k (q.tryPut j x).k := by
+  rw [k_tryPut]
+  split
+  · rename_i hf; exact KStep.pwait _ j p h hp hf
+  · rename_i hf; exact KStep.pput _ j p h hp (by simpa using hf)
+
+theorem kstep_stepProducer (q : Q) (j : Nat) : KStep q.k (q.stepProducer j).k := by
+  unfold stepProducer
+  split
+  · rename_i p a hk ha
+    split
+    · exact KStep.refl _
+    · simp only
+      split
+      · rename_i hp
+        unfold startProducer
+        split
+        · simp only [k_setK, k_modP]
+          exact KStep.pabort _ j p hk (by simp [hp, prePut])
+        · exact kstep_tryPut (q.modP j _) j _ p hk (by simp [hp, prePut])
+      · rename_i hp
+        unfold wakeProducer
+        simp only
+        split
+        · simp only [k_abortPut, k_modP]
+          exact KStep.pabort _ j p hk (by simp [hp, prePut])
+        · exact kstep_tryPut (q.modP j _ |>.modP j _) j _ p hk (by simp [hp, prePut])
+      · exact KStep.refl _
+  · exact KStep.refl _
+
 theorem kstep_runRef (q : Q) (r : Ref) : KStep q.k (q.runRef r).k := by
   cases r with
   | consumer c => exact kstep_stepConsumer q c
   | joiner j => exact KStep.stepJ _ j
+  | producer j => exact kstep_stepProducer q j
 
 /-- **refinement**: whatever the input and the state of the shell, the core makes one guarded core step -/
 theorem kstep_step (q : Q) (i : Input) : KStep q.k (q.step i).k := by
   cases i with
-  | put x => simp only [step, k_put]; exact KStep.put _ x
+  | put x =>
+    simp only [step, k_put]
+    split
+    · exact KStep.refl _
+    · rename_i hf; exact KStep.put _ x (by simpa using hf)
+  | produce x => exact KStep.produce _ x
+  | cancelp j => simp only [step, k_cancelProducer]; exact KStep.refl _
   | spawn => exact KStep.spawn _
   | join => exact KStep.join _
   | cancel c => simp only [step, k_cancelConsumer]; exact KStep.refl _
@@ -131,8 +209,37 @@ theorem inv_run (q : Q) (ins : List Input) (h : q.k.Inv) : (q.run ins).k.Inv := 
   | nil => exact h
   | cons i is ih => exact ih _ (inv_step q i h)
 
-/-- every state reachable from the initial one, by any history, satisfies the core invariant -/
-theorem inv_reach (ins : List Input) : (Q.init.run ins).k.Inv := inv_run _ _ K.inv_init
+/-- every state reachable from an initial one — `Queue(maxsize=n)`, `n = 0`: `Queue()` —, by any history, satisfies
+the core invariant -/
+theorem inv_reach (n : Nat) (ins : List Input) : ((Q.initN n).run ins).k.Inv := inv_run _ _ (K.inv_initN n)
+
+theorem pok_step (q : Q) (i : Input) (h : q.k.POK) : (q.step i).k.POK := (kstep_step q i).pok h
+
+theorem pok_run (q : Q) (ins : List Input) (h : q.k.POK) : (q.run ins).k.POK := by
+  induction ins generalizing q with
+  | nil => exact h
+  | cons i is ih => exact ih _ (pok_step q i h)
+
+/-- … and the producers' books -/
+theorem pok_reach (n : Nat) (ins : List Input) : ((Q.initN n).run ins).k.POK := pok_run _ _ (K.pok_initN n)
+
+theorem maxsize_run (q : Q) (ins : List Input) : (q.run ins).k.maxsize = q.k.maxsize := by
+  induction ins generalizing q with
+  | nil => rfl
+  | cons i is ih => exact (ih _).trans (kstep_step q i).maxsize_eq
+
+/-- `maxsize` is what the queue was created with -/
+theorem maxsize_reach (n : Nat) (ins : List Input) : ((Q.initN n).run ins).k.maxsize = n := maxsize_run _ _
+
+/-- a producer that is through `put()` stays as it is, whatever follows -/
+theorem prod_final_run (q : Q) (ins : List Input) (j : Nat) (p : Prod) (h : q.k.prods[j]? = some p)
+    (hd : isPDone p.phase = true) : (q.run ins).k.prods[j]? = some p := by
+  induction ins generalizing q with
+  | nil => exact h
+  | cons i is ih =>
+    obtain ⟨p', h1, _, h3⟩ := (kstep_step q i).prod_final j p h
+    rw [h3 hd] at h1
+    exact ih _ h1
 
 theorem run_append (q : Q) (a b : List Input) : q.run (a ++ b) = (q.run a).run b := by
   simp [run, List.foldl_append]
